@@ -30,6 +30,8 @@ func c12(c *eng.Ctx, r *eng.Report) {
 		"R12.3 the readOnly flag is only set/reset inside Run under `readOnly && !in.readOnly`; " +
 		"R12.4 AccountDB.Prepare re-initialises every per-transaction scratch field and the block executor calls it before each transaction's BeforeExecute and reads logs by the same hash; " +
 		"R12.5 every raw state mutation is preceded by its journal entry on every path (C04's R4.2 re-run: RevertToSnapshot can only undo what was journaled). " +
+		"R12.7 a frame's snapshot is taken before the frame changes anything: in Call, CallCode, DelegateCall, StaticCall, AuthCall and create every call that can reach a raw state setter (value transfer, account creation — directly or through a helper) is dominated by StateDB.Snapshot(); the reviewed exceptions are the nonce bumps of create and AuthCall and create's access-list entry, which survive a failed frame by design; " +
+		"R12.8 journal entries do not alias a reusable buffer: GetERC20Key returns a slice of an array allocated in that call (C06's R6.9 here: the journal keeps the key slice, so a shared buffer makes every entry of a failing frame point at the key derived last and the revert restores balances into the wrong slot); " +
 		"R12.6 every journal entry's undo performs exactly its paired raw writes, each on every path, and nothing else (C04's R4.3 re-run: a failed frame leaves no trace only if the undo neither skips a restore nor edits state the entry did not record, such as the set of slots still to be flushed). " +
 		"Not decided: value equality of the state before/after a failed frame."
 	r.Assume = []string{
@@ -54,6 +56,10 @@ func c12(c *eng.Ctx, r *eng.Report) {
 	// and nothing else (C04's R4.3 under this property's id: a frame that fails leaves no trace only if the
 	// undo neither skips a restore nor touches state the entry did not record, e.g. the flush set)
 	c04UndoAs(c, r, "R12.6", nil, 12)
+	c12SnapshotFirst(c, r)
+	// R12.8: what the journal records must stay what it was when recorded — the key slice of a balance write is
+	// the caller's own (C06's R6.9 under this property's id: a frame that moved value and fails is undone slot by slot)
+	c06BalanceKeyFreshAs(c, r, "R12.8")
 }
 
 func isStateDBCall(s eng.Site, method string) bool {
@@ -594,3 +600,91 @@ func c12Prepare(c *eng.Ctx, r *eng.Report) {
 // approximated as "a's immediate dominator dominates b" which the caller has
 // established; kept as a hook for stricter loop membership.
 func sameLoop(a, b *ssa.BasicBlock) bool { return a != nil && b != nil }
+
+// c12SnapshotFirst: what happens before Snapshot() stays when the frame fails.
+func c12SnapshotFirst(c *eng.Ctx, r *eng.Report) {
+	const rule = "R12.7"
+	r.Min(rule, 5)
+	setters := map[*ssa.Function]bool{}
+	for _, n := range rawSetters {
+		if f := c.Func("storage/account", n); f != nil {
+			setters[f] = true
+		}
+	}
+	// writes that deliberately precede the snapshot (they survive a failed frame by design; the code says so)
+	reviewedBefore := map[string][]string{
+		"(*vm.EVM).create":   {"SetNonce", "AddAddressToAccessList"}, // creator's nonce bump; EIP-2929: "even if the creation fails, the access-list change should not be rolled back"
+		"(*vm.EVM).AuthCall": {"SetNonce"},                           // "authcall caller's nonce increase": replay protection of the authorisation, kept on failure
+	}
+	for _, name := range []string{"(*EVM).Call", "(*EVM).CallCode", "(*EVM).DelegateCall", "(*EVM).StaticCall", "(*EVM).AuthCall", "(*EVM).create"} {
+		fn := c.Func("vm", name)
+		if !r.Anchor(fn != nil, rule, "vm."+name) {
+			continue
+		}
+		var snap ssa.Instruction
+		for _, s := range eng.Sites(fn) {
+			if s.Common().IsInvoke() && s.Common().Method.Name() == "Snapshot" {
+				snap = s.Instr
+			}
+		}
+		if snap == nil {
+			r.Fail(rule, "snapshot-first:"+name, c.Pos(fn.Pos()), name+" takes no snapshot")
+			continue
+		}
+		bad := ""
+		for _, s := range eng.Sites(fn) {
+			if s.Instr == snap || eng.Dominates(snap, s.Instr) {
+				continue
+			}
+			mutates := ""
+			if s.Common().IsInvoke() {
+				// StateDB interface methods that write
+				m := s.Common().Method.Name()
+				switch m {
+				case "CreateAccount", "AddBalance", "SubBalance", "SetBalance", "SetNonce", "SetCode", "SetState", "SetData", "Suicide", "AddLog", "AddRefund", "SubRefund", "SetTransientState", "AddAddressToAccessList", "AddSlotToAccessList":
+					mutates = "StateDB." + m
+				}
+			} else if s.Common().StaticCallee() == nil {
+				// a call through a function value (evm.Transfer, evm.Context.Transfer)
+				if d := eng.Desc(s.Common().Value); strings.HasSuffix(d, ".Transfer") {
+					mutates = d
+				}
+			} else if callee := s.Common().StaticCallee(); eng.InMod(callee) && strings.HasSuffix(eng.FuncPkgPath(callee), "/src/vm") {
+				cone := mutationCone(c, callee)
+				for st := range setters {
+					if cone.Set[st] {
+						mutates = eng.FuncName(callee) + " (→ " + cone.PathTo(st) + ")"
+					}
+				}
+				// helpers that call the Transfer function value
+				for _, f2 := range cone.Sorted() {
+					if f2.Blocks == nil {
+						continue
+					}
+					for _, s2 := range eng.Sites(f2) {
+						if s2.Common().StaticCallee() == nil && !s2.Common().IsInvoke() && strings.HasSuffix(eng.Desc(s2.Common().Value), ".Transfer") {
+							mutates = eng.FuncName(callee) + " (→ Transfer)"
+						}
+						if s2.Common().IsInvoke() && s2.Common().Method.Name() == "CreateAccount" {
+							mutates = eng.FuncName(callee) + " (→ CreateAccount)"
+						}
+					}
+				}
+			}
+			if mutates == "" {
+				continue
+			}
+			skip := false
+			for _, ex := range reviewedBefore[eng.FuncName(fn)] {
+				if strings.Contains(mutates, ex) {
+					skip = true
+				}
+			}
+			if skip {
+				continue
+			}
+			bad = mutates + " at " + c.Pos(s.Pos())
+		}
+		r.Check(bad == "", rule, "snapshot-first:"+name, c.Pos(fn.Pos()), "every state change of the frame set-up is dominated by Snapshot()", name+" changes state before taking the frame snapshot: "+bad+" is not dominated by StateDB.Snapshot() — when the callee fails, RevertToSnapshot rolls its writes back but not this one (the callee keeps the value it was sent, or an account created for it stays)")
+	}
+}
